@@ -277,8 +277,10 @@ where
             self.occupy_vacant_node(node_idx, weight);
             Ok(node_idx)
         } else {
+            // count the node only once it has really been added (the index limit may be hit)
+            let node_idx = self.g.try_add_node(Some(weight))?;
             self.node_count += 1;
-            self.g.try_add_node(Some(weight))
+            Ok(node_idx)
         }
     }
 
